@@ -744,6 +744,11 @@ _STR = {n: _s_wrap(n) for n in ('startswith', 'endswith', 'encode', 'decode', 'l
 
 def _str_join(ex, s, xs):
     xs = ex.iterate(xs)
+    if hasattr(ex, 'join_hook'):
+        from .engine import NOTHANDLED
+        r = ex.join_hook(s, xs)
+        if r is not NOTHANDLED:
+            return r
     if all(isinstance(x, str) for x in xs):
         return s.join(xs)
     if any(isinstance(x, Obj) for x in xs):
